@@ -31,7 +31,8 @@ def make_interp(repo_root=None):
     it = Interp(repo, reg, EXT)
     for con in reg.values():
         for key, spec in getattr(con, 'loops', {}).items():
-            it.loop_specs[(con.name, key)] = spec
+            if not isinstance(key, tuple):
+                it.loop_specs[(con.name, key)] = spec
     return it
 
 
